@@ -386,6 +386,113 @@ func (e *Engine) VerifyLemma(l *Lemma, small bool) *FnCtx {
 	return fc
 }
 
+// VerifyRefinement: interface-implementation obligation. In an arbitrary pre-state satisfying the coupling and the
+// interface's requires, the implementation's requires hold (obligations); the implementation is then "called" through its
+// own contract (modifies havocked, ensures assumed); in the resulting state, with the coupling assumed again (it DEFINES the
+// interface's ghost view of the new state), every ensures clause of the interface contract must hold (obligations).
+// Parameters are shared by position; the interface's receiver is the boxed implementation receiver.
+func (e *Engine) VerifyRefinement(r *Refinement) *FnCtx {
+	fc := e.newFnCtx("refines::"+r.Label, nil, nil)
+	impl, ictr := e.Funcs[r.Impl], e.Spec.Funcs[r.Impl]
+	actr := e.Spec.Funcs[r.Iface]
+	if impl == nil || ictr == nil || actr == nil {
+		fc.errf("refines %s: implementation, its contract or the interface contract is missing (%s -> %s)", r.Label, r.Impl, r.Iface)
+		return fc
+	}
+	fr := newFrame(fc, impl, "")
+	entry := &State{comp: map[string]string{}, epoch: 0}
+	top0 := fc.declare("top0", "Int")
+	fc.fact("", "(>= %s 1)", top0)
+	entry.comp["TOP"] = top0
+	fc.entry = entry
+	fr.entryState = entry
+	var argTerms []string
+	var argTypes []types.Type
+	for i, p := range impl.Params {
+		n := fc.declare(fmt.Sprintf("p%d_%s", i, mangle(p.Name())), fc.P.SortOf(p.Type()))
+		fr.vals[p] = n
+		fr.loadedAssume(n, p.Type(), entry)
+		argTerms = append(argTerms, n)
+		argTypes = append(argTypes, p.Type())
+	}
+	if len(argTerms) == 0 || impl.Signature.Recv() == nil {
+		fc.errf("refines %s: the implementation must be a method", r.Label)
+		return fc
+	}
+	fc.fact("", "(not (= %s 0))", argTerms[0])
+	// interface-side names: receiver boxed, other parameters by position
+	ifaceEnv := func(pre, post *State, resName string, resT types.Type) *Env {
+		env := &Env{fc: fc, tpkg: fc.pkgTypes(actr.Pkg), names: map[string]TV{}, cur: post, old: pre}
+		for i, n := range actr.Params {
+			if i >= len(argTerms) || n == "" || n == "_" {
+				continue
+			}
+			if i == 0 {
+				k := fc.P.Box(argTypes[0])
+				env.names[n] = TV{fmt.Sprintf("(box_%s %s)", k, argTerms[0]), "Int", types.NewInterfaceType(nil, nil)}
+				continue
+			}
+			env.names[n] = TV{argTerms[i], fc.P.SortOf(argTypes[i]), argTypes[i]}
+		}
+		bindResults(env, fc, resName, resT, impl.Signature)
+		return env
+	}
+	implEnv := func(st *State) *Env {
+		env := &Env{fc: fc, tpkg: fc.pkgTypes(r.Pkg), names: map[string]TV{}, cur: st}
+		for i, p := range impl.Params {
+			env.names[p.Name()] = TV{argTerms[i], fc.P.SortOf(argTypes[i]), argTypes[i]}
+		}
+		return env
+	}
+	// pre-state assumptions
+	fc.fact("", "%s", implEnv(entry).tr(r.Coupling).T)
+	preIface := ifaceEnv(entry, entry, "", nil)
+	preIface.old = nil
+	for _, c := range actr.Requires {
+		fc.fact("", "%s", preIface.tr(c.E).T)
+	}
+	fc.nPreFacts = len(fc.facts)
+	// the implementation, through its contract (its requires become obligations)
+	st := entry.clone()
+	var resT types.Type
+	res := impl.Signature.Results()
+	resName := ""
+	switch res.Len() {
+	case 0:
+	case 1:
+		resT = res.At(0).Type()
+		resName = fc.declare("res", fc.P.SortOf(resT))
+	default:
+		resT = res
+		resName = "res"
+		for i := 0; i < res.Len(); i++ {
+			fc.declare(fmt.Sprintf("res_r%d", i), fc.P.SortOf(res.At(i).Type()))
+		}
+	}
+	fr.applyContract(ictr, impl, nil, argTerms, argTypes, resName, resT, st, "true", nil)
+	// the interface's view of the new state
+	fc.fact("", "%s", implEnv(st).tr(r.Coupling).T)
+	post := ifaceEnv(entry, st, resName, resT)
+	for _, c := range actr.Ensures {
+		if len(r.Clauses) > 0 {
+			want := false
+			for _, l := range r.Clauses {
+				if l == c.Label {
+					want = true
+				}
+			}
+			if !want {
+				continue
+			}
+		}
+		for k, part := range splitConj(c.E) {
+			g := post.tr(part)
+			fc.obls = append(fc.obls, &Obl{Func: "refines:" + r.Label, Kind: "refines", Label: r.Label + ":" + c.Label, Site: fmt.Sprint(k), NFacts: len(fc.facts), Path: "true", Goal: g.T, Text: c.Text})
+		}
+	}
+	return fc
+}
+
 // contractAxiom: forall args. requires ==> ensures[result := pf(args)] for a pure Go function under (proved) contract.
 func (fc *FnCtx) contractAxiom(key string) {
 	fn := fc.eng.Funcs[key]
